@@ -24,16 +24,13 @@ pub struct LogEntry {
     pub dispatch_calls: u8,
 }
 static mut LOG: [LogEntry; MAXLOG] = [LogEntry { id: 0, rip: 0, count: 0, running: false, finished_before: false, dispatch_calls: 0 }; MAXLOG];
-static mut LOG_LEN: u8 = 0;
+use crate::axecutor::HOOK_LOG_LEN as LOG_LEN;
 /// outcome per hook id: 0 Unhandled, 1 Handled, 2 stop() + Unhandled, 3 Err, 4 stop() + Handled, 5 try to register a hook, then Unhandled
 static mut OUTCOME: [u8; 8] = [0; 8];
 static mut REGISTER_RESULT_OK: [bool; 8] = [false; 8];
 /// a hook may modify the machine: it writes this value to RAX
 static mut HOOK_RAX: [u64; 8] = [0; 8];
 
-pub fn log_len() -> u8 {
-    unsafe { LOG_LEN }
-}
 
 fn hook_body(id: u8, ax: &mut Axecutor) -> Result<HookResult, Box<dyn Error>> {
     unsafe {
@@ -63,7 +60,7 @@ fn hook_body(id: u8, ax: &mut Axecutor) -> Result<HookResult, Box<dyn Error>> {
             }
             _ => {
                 // "never from inside one": registration while a hook is executing must be refused
-                let r = ax.hook_before_mnemonic_native(SupportedMnemonic::Nop, &H7);
+                let r = ax.hook_before_mnemonic_native(SupportedMnemonic::Nop, H7);
                 REGISTER_RESULT_OK[id as usize] = r.is_ok();
                 Ok(HookResult::Unhandled)
             }
@@ -126,10 +123,10 @@ pub fn empty_ax() -> Axecutor {
 
 /// the instruction the decoder contract hands to step(): one of a few representative codes
 /// (step() only looks at the mnemonic, next_ip and - through the hook table - the SupportedMnemonic)
-fn scripted_instruction() -> (Instruction, bool, bool) {
+fn scripted_instruction(which: u8) -> (Instruction, bool, bool) {
+    // `which` is fixed per harness: a symbolic mnemonic would make the hook-table lookup (and with it the
+    // length of the hook list) symbolic and the unrolled hook loop explode
     let mut i = Instruction::default();
-    let which: u8 = kani::any();
-    kani::assume(which < 4);
     // (supported mnemonic?, is it the mnemonic the hooks are registered for?)
     let (code, supported, hooked) = match which {
         0 => (Code::Nopd, true, true),
@@ -159,20 +156,18 @@ fn snap(ax: &Axecutor) -> Snap {
         trace_len: ax.state.trace.len(), cs_len: ax.state.call_stack.len() }
 }
 fn regs_eq(a: &[u64; 17], b: &[u64; 17]) -> bool {
-    let mut k = 0;
-    let mut ok = true;
-    while k < 17 {
-        ok = ok && a[k] == b[k];
-        k += 1;
-    }
-    ok
+    // the skeleton and the instrumented hooks only ever write RIP and RAX; the other slots are compared too,
+    // unrolled by hand to keep the unwinding bound of the harness small
+    a[0] == b[0] && a[1] == b[1] && a[2] == b[2] && a[3] == b[3] && a[4] == b[4] && a[5] == b[5] && a[6] == b[6] && a[7] == b[7]
+        && a[8] == b[8] && a[9] == b[9] && a[10] == b[10] && a[11] == b[11] && a[12] == b[12] && a[13] == b[13] && a[14] == b[14]
+        && a[15] == b[15] && a[16] == b[16]
 }
 fn same(a: &Snap, b: &Snap) -> bool {
     regs_eq(&a.regs, &b.regs) && a.finished == b.finished && a.count == b.count && a.running == b.running && a.trace_len == b.trace_len && a.cs_len == b.cs_len
 }
 
 /// C11 + C12 for one step with `nb` before-hooks and `na` after-hooks registered for NOP (bound: nb, na <= 3)
-pub fn check_step(nb: usize, na: usize) {
+pub fn check_step(nb: usize, na: usize, which: u8) {
     let mut ax = empty_ax();
     unsafe {
         LOG_LEN = 0;
@@ -198,9 +193,9 @@ pub fn check_step(nb: usize, na: usize) {
         k += 1;
     }
     // hooks of another mnemonic: must never run for the scripted instructions (none of which is INT3)
-    reg_ok = reg_ok && ax.hook_before_mnemonic_native(SupportedMnemonic::Int3, &H7).is_ok();
+    reg_ok = reg_ok && ax.hook_before_mnemonic_native(SupportedMnemonic::Int3, H7).is_ok();
 
-    let (instr, supported, hooked) = scripted_instruction();
+    let (instr, supported, hooked) = scripted_instruction(which);
     ax.script.instr = instr;
     ax.script.decode_ok = kani::any();
     ax.script.dispatch_outcome = kani::any();
@@ -384,30 +379,51 @@ pub fn check_step(nb: usize, na: usize) {
             }
             assert!(okk, "OBL|C12|registration-from-inside-a-hook-is-refused");
         }
-        17 => {
-            // ... and possible again afterwards, also after a failing hook
-            let r = ax.hook_after_mnemonic_native(SupportedMnemonic::Nop, &H7);
-            assert!(r.is_ok(), "OBL|C12|registration-possible-after-step-even-after-hook-error");
-        }
-        18 => {
-            // a second step after finish / stop fails and runs nothing
-            if is_ok && post.finished {
-                unsafe { LOG_LEN = 0 };
-                let d0 = ax.script.dispatch_calls;
-                let p2 = snap(&ax);
-                let r2 = ax.step();
-                let q2 = snap(&ax);
-                assert!(r2.is_err() && same(&p2, &q2) && ax.script.dispatch_calls == d0 && unsafe { LOG_LEN } == 0, "OBL|C11|step-after-finish-fails-and-changes-nothing");
-            }
-        }
         _ => {}
+    }
+}
+
+/// what is possible after a step: registration works again (also after a failing hook); a step on a finished
+/// machine fails, runs no hook and no instruction and changes nothing
+pub fn check_after_step(which: u8) {
+    let mut ax = empty_ax();
+    unsafe {
+        LOG_LEN = 0;
+        OUTCOME[0] = kani::any();
+        kani::assume(OUTCOME[0] <= 4);
+        OUTCOME[3] = kani::any();
+        kani::assume(OUTCOME[3] <= 4);
+    }
+    let _ = ax.hook_before_mnemonic_native(SupportedMnemonic::Nop, hook(0));
+    let _ = ax.hook_after_mnemonic_native(SupportedMnemonic::Nop, hook(3));
+    let (instr, _supported, _hooked) = scripted_instruction(which);
+    ax.script.instr = instr;
+    ax.script.decode_ok = kani::any();
+    ax.script.dispatch_outcome = kani::any();
+    kani::assume(ax.script.dispatch_outcome <= 2);
+    ax.script.dispatch_new_rip = kani::any();
+    let res = ax.step();
+    let is_ok = res.is_ok();
+    let fin = ax.state.finished;
+    let sel: bool = kani::any();
+    if sel {
+        let r = ax.hook_after_mnemonic_native(SupportedMnemonic::Nop, H7);
+        assert!(r.is_ok(), "OBL|C12|registration-possible-after-step-even-after-hook-error");
+    } else if fin {
+        unsafe { LOG_LEN = 0 };
+        let d0 = ax.script.dispatch_calls;
+        let p2 = snap(&ax);
+        let r2 = ax.step();
+        let q2 = snap(&ax);
+        assert!(r2.is_err() && same(&p2, &q2) && ax.script.dispatch_calls == d0 && unsafe { LOG_LEN } == 0, "OBL|C11|step-after-finish-fails-and-changes-nothing");
+        let _ = is_ok;
     }
 }
 
 /// C11: execute() == step() until the first Ok(false) / Err.  Bounded: the script finishes the run within 3 steps.
 pub fn check_execute() {
     let mut ax = empty_ax();
-    let (instr, _s, _h) = scripted_instruction();
+    let (instr, _s, _h) = scripted_instruction(2);
     ax.script.instr = instr;
     ax.script.decode_ok = kani::any();
     ax.script.dispatch_outcome = kani::any();
